@@ -227,6 +227,45 @@ def build_driver(prop, driver_c, repo_sources, out_name, extra_flags=(), san=Tru
     return exe
 
 
+VS_WRAPS = ["pthread_mutex_lock", "pthread_mutex_unlock", "pthread_mutex_trylock", "pthread_cond_wait",
+            "pthread_cond_timedwait", "pthread_cond_signal", "pthread_cond_broadcast", "sched_yield", "nanosleep"]
+
+
+def build_vsched_driver(prop, driver_c, repo_sources, out_name="impl_driver", extra_flags=(), san=True,
+                        extra_c=(), extra_wraps=(), link_flags=()):
+    """Driver for the concurrent properties: repository sources are compiled with the forced
+    include harness/vsched/vs_hooks.h (atomics hooked), sync_obj_futex.c is replaced by the
+    scheduler's futex, pthread mutex/condvar/yield are interposed with -Wl,--wrap."""
+    from concurrent.futures import ThreadPoolExecutor
+    gen_config_header()
+    hdirs = [os.path.join(VERIF, "harness")]
+    hh = headers_hash(hdirs)
+    inc = ["-I" + REPO, "-I" + GEN_INC, "-I" + os.path.join(VERIF, "harness")]
+    base = BASE_CFLAGS + (SAN_FLAGS if san else []) + list(extra_flags) + inc
+    hooked = base + ["-include", os.path.join(VERIF, "harness/vsched/vs_hooks.h")]
+    jobs = []
+    for s_ in repo_sources:
+        if s_.endswith("sync_obj_futex.c"):
+            continue
+        jobs.append((os.path.join(REPO, s_), hooked))
+    jobs.append((os.path.join(VERIF, driver_c), hooked))
+    jobs.append((os.path.join(VERIF, "harness/vsched/vsched.c"), base))
+    for s_ in extra_c:
+        jobs.append((os.path.join(VERIF, s_), base))
+    with ThreadPoolExecutor(max_workers=16) as ex:
+        objs = list(ex.map(lambda j: compile_obj(j[0], j[1], hh), jobs))
+    outdir = os.path.join(BUILD, prop)
+    os.makedirs(outdir, exist_ok=True)
+    exe = os.path.join(outdir, out_name)
+    wraps = ["-Wl,--wrap=" + w for w in list(VS_WRAPS) + list(extra_wraps)]
+    cmd = [CC] + (SAN_FLAGS if san else []) + objs + ["-o", exe + ".tmp", "-lpthread", "-lm", "-ldl"] + wraps + list(link_flags)
+    rc, out, err = sh(cmd, timeout=300)
+    if rc != 0:
+        raise RuntimeError("link failed: %s\n%s" % (" ".join(cmd[:6]), err[-4000:]))
+    os.replace(exe + ".tmp", exe)
+    return exe
+
+
 # --------------------------------------------------------------------------
 # Coq
 
@@ -506,7 +545,7 @@ def coq_check_properties(prop, deps_subdirs, timeout=1500, allowed_axioms=()):
 ZCONV = os.path.join(VERIF, "ocaml", "zconv.ml.inc")
 
 
-def build_ocaml_driver(prop, model_base, driver_ml, out_name="model_driver"):
+def build_ocaml_driver(prop, model_base, driver_ml, out_name="model_driver", includes=()):
     """model_base: e.g. 'c19_model' -> coq/c19_model.ml(i) produced by Extract.v."""
     outdir = os.path.join(BUILD, prop, "ocaml")
     os.makedirs(outdir, exist_ok=True)
@@ -517,7 +556,8 @@ def build_ocaml_driver(prop, model_base, driver_ml, out_name="model_driver"):
         shutil.copy(s, os.path.join(outdir, model_base + ext))
     body = open(os.path.join(VERIF, driver_ml)).read()
     mod = model_base[0].upper() + model_base[1:]
-    text = "open %s\n" % mod + open(ZCONV).read() + "\n" + body
+    text = "open %s\n" % mod + open(ZCONV).read() + "\n" + \
+        "".join(open(os.path.join(VERIF, i)).read() + "\n" for i in includes) + body
     open(os.path.join(outdir, "driver.ml"), "w").write(text)
     exe = os.path.join(BUILD, prop, out_name)
     rc, out, err = sh(["ocamlfind", "ocamlopt", "-O2", "-w", "-a", "-package", "str", "-linkpkg",
@@ -608,6 +648,9 @@ def run_batch(exe, cases, per_case_timeout=10.0, env=None, chunk=400, args=()):
             else:
                 bad_idx = i
                 break
+        if bad_idx is not None and rc == 77 and bad_idx > 0 and part[bad_idx].name not in parsed:
+            todo = part[bad_idx:] + todo
+            continue
         if bad_idx is not None:
             c = part[bad_idx]
             partial = parsed.get(c.name, ([], False))[0]
